@@ -22,8 +22,8 @@ def gapFreeB : List (Rec π) → Bool
 def GapFree (recs : List (Rec π)) : Prop := gapFreeB recs = true
 instance (recs : List (Rec π)) : Decidable (GapFree recs) := by unfold GapFree; infer_instance
 
-/-- the day of the year of a date lies in its year -/
-def ValidRec (r : Rec π) : Prop := 1 ≤ r.doy ∧ r.doy ≤ daysInYear r.year
+/-- the date of the line parsed and its day of the year lies in its year -/
+def ValidRec (r : Rec π) : Prop := r.bad = false ∧ 1 ≤ r.doy ∧ r.doy ≤ daysInYear r.year
 instance (r : Rec π) : Decidable (ValidRec r) := by unfold ValidRec; infer_instance
 
 /-- year of the first record that is not skipped (slot 0 of the arrays) -/
@@ -78,44 +78,48 @@ theorem maxAt_put_ne (s : Store π) (i j i' : Nat) (v : π) (y T : Nat) (h : ¬ 
 
 /-! ### the multi-year readers -/
 
-theorem multiStep_same (sy cap : Nat) (s : MState π) (r : Rec π) (hns : ¬ r.year < sy) (hf : s.first = false)
+theorem multiStep_same (sy cap : Nat) (s : MState π) (r : Rec π) (hb : r.bad = false) (hns : ¬ r.year < sy) (hf : s.first = false)
     (hne1 : ¬ r.doy = 1) (hd : r.doy = s.T + 1) (hc : s.yrz ≤ cap) :
     multiStep sy cap s r = .cont { T := s.T + 1, yrz := s.yrz, first := false, store := s.store.put (s.yrz - 1) (s.T + 1 - 1) r.val r.year (s.T + 1) } := by
   have h2 : ¬ cap < s.yrz := by omega
   have h3 : ¬ s.T = 0 := by omega
   have h4 : ¬ s.T + 1 = 1 := by omega
-  simp [multiStep, advance, hns, hf, hd, h2, h3, h4]
+  simp [multiStep, advance, hb, hns, hf, hd, h2, h3, h4]
 
-theorem multiStep_newyear (sy cap : Nat) (s : MState π) (r : Rec π) (hns : ¬ r.year < sy) (hf : s.first = false)
+theorem multiStep_newyear (sy cap : Nat) (s : MState π) (r : Rec π) (hb : r.bad = false) (hns : ¬ r.year < sy) (hf : s.first = false)
     (hd : r.doy = 1) (hsw : switchOk s r = true) (hc : ¬ s.yrz + 1 > cap) :
     multiStep sy cap s r = .cont { T := 1, yrz := s.yrz + 1, first := false, store := s.store.put (s.yrz + 1 - 1) (1 - 1) r.val r.year 1 } := by
-  simp [multiStep, advance, hns, hf, hd, hc, hsw]
+  simp [multiStep, advance, hb, hns, hf, hd, hc, hsw]
 
-theorem multiStep_newyear_stop (sy cap : Nat) (s : MState π) (r : Rec π) (hns : ¬ r.year < sy) (hf : s.first = false)
+theorem multiStep_newyear_stop (sy cap : Nat) (s : MState π) (r : Rec π) (hb : r.bad = false) (hns : ¬ r.year < sy) (hf : s.first = false)
     (hd : r.doy = 1) (hsw : switchOk s r = true) (hc : s.yrz + 1 > cap) :
     ∃ s', multiStep sy cap s r = .stop s' ∧ s'.store = s.store := by
   refine ⟨{ s with T := 1, yrz := s.yrz + 1 - 1, first := false }, ?_, rfl⟩
-  simp [multiStep, advance, hns, hf, hd, hc, hsw]
+  simp [multiStep, advance, hb, hns, hf, hd, hc, hsw]
 
 /-- a 1 January that does not follow a complete previous year is the reader's error -/
-theorem multiStep_bad_switch (sy cap : Nat) (s : MState π) (r : Rec π) (hns : ¬ r.year < sy) (hf : s.first = false)
+theorem multiStep_bad_switch (sy cap : Nat) (s : MState π) (r : Rec π) (hb : r.bad = false) (hns : ¬ r.year < sy) (hf : s.first = false)
     (hd : r.doy = 1) (hsw : switchOk s r = false) : multiStep sy cap s r = .gap := by
-  simp [multiStep, hns, hf, hd, hsw]
+  simp [multiStep, hb, hns, hf, hd, hsw]
 
-theorem multiStep_first (sy cap : Nat) (s : MState π) (r : Rec π) (hns : ¬ r.year < sy) (hf : s.first = true)
+theorem multiStep_first (sy cap : Nat) (s : MState π) (r : Rec π) (hb : r.bad = false) (hns : ¬ r.year < sy) (hf : s.first = true)
     (hc : ¬ 1 > cap) :
     multiStep sy cap s r = .cont { T := r.doy, yrz := 1, first := false, store := s.store.put (1 - 1) (r.doy - 1) r.val r.year r.doy } := by
-  simp [multiStep, advance, hns, hf, hc]
+  simp [multiStep, advance, hb, hns, hf, hc]
 
-theorem multiStep_first_stop (sy cap : Nat) (s : MState π) (r : Rec π) (hns : ¬ r.year < sy) (hf : s.first = true)
+theorem multiStep_first_stop (sy cap : Nat) (s : MState π) (r : Rec π) (hb : r.bad = false) (hns : ¬ r.year < sy) (hf : s.first = true)
     (hc : 1 > cap) :
     ∃ s', multiStep sy cap s r = .stop s' ∧ s'.store = s.store := by
   refine ⟨{ s with T := r.doy, yrz := 1 - 1, first := false }, ?_, rfl⟩
-  simp [multiStep, advance, hns, hf, hc]
+  simp [multiStep, advance, hb, hns, hf, hc]
 
-theorem multiStep_skip (sy cap : Nat) (s : MState π) (r : Rec π) (hs : r.year < sy) :
+/-- a line whose date did not parse is the reader's error, in every state -/
+theorem multiStep_bad_date (sy cap : Nat) (s : MState π) (r : Rec π) (hb : r.bad = true) : multiStep sy cap s r = .gap := by
+  simp [multiStep, hb]
+
+theorem multiStep_skip (sy cap : Nat) (s : MState π) (r : Rec π) (hb : r.bad = false) (hs : r.year < sy) :
     multiStep sy cap s r = .cont { s with T := s.T + 1 } := by
-  simp [multiStep, hs]
+  simp [multiStep, hb, hs]
 
 /-- what `aligned_from` establishes about the loop run from state `s` (last stored record `l`) -/
 def AlignedFrom (sy cap y0 : Nat) (l : Rec π) (s : MState π) (rest : List (Rec π)) : Prop :=
@@ -134,19 +138,22 @@ theorem aligned_from (sy cap y0 : Nat) (rest : List (Rec π)) :
     ∀ (l : Rec π) (s : MState π), s.first = false → s.T = l.doy → s.yrz = l.year - y0 + 1 → y0 ≤ l.year →
       sy ≤ y0 → s.yrz ≤ cap → 1 ≤ l.doy → s.store.jarAt (l.year - y0) = l.year →
       s.store.maxAt (l.year - y0) = l.doy →
-      gapFreeB (l :: rest) = true → (∀ r ∈ rest, 1 ≤ r.doy) → AlignedFrom sy cap y0 l s rest := by
+      gapFreeB (l :: rest) = true → (∀ r ∈ rest, 1 ≤ r.doy) → (∀ r ∈ rest, r.bad = false) →
+      AlignedFrom sy cap y0 l s rest := by
   induction rest with
   | nil =>
-    intro l s _ _ _ _ _ _ _ _ _ _ _
+    intro l s _ _ _ _ _ _ _ _ _ _ _ _
     exact ⟨s, rfl, by simp, fun _ _ _ => rfl, fun _ _ => rfl, fun _ => Or.inl rfl⟩
   | cons r rest' ih =>
-    intro l s hf hT hyrz hy0 hsy hcap hl1 hjar hmax hgf hpos
+    intro l s hf hT hyrz hy0 hsy hcap hl1 hjar hmax hgf hpos hnb
     have hlater := gapFree_later l (r :: rest') hgf
     simp only [gapFreeB, Bool.and_eq_true] at hgf
     obtain ⟨hn, hg'⟩ := hgf
     have hc := nextDayB_cases l r hn
     have hr1 : 1 ≤ r.doy := hpos r (List.mem_cons_self ..)
     have hpos' : ∀ q ∈ rest', 1 ≤ q.doy := fun q hq => hpos q (List.mem_cons_of_mem _ hq)
+    have hnb' : ∀ q ∈ rest', q.bad = false := fun q hq => hnb q (List.mem_cons_of_mem _ hq)
+    have hrb : r.bad = false := hnb r (List.mem_cons_self ..)
     have hlater' := gapFree_later r rest' hg'
     have hnskip : ¬ r.year < sy := by rcases hc with ⟨a, _⟩ | ⟨a, _, _⟩ <;> omega
     -- the state after storing r, in both cases: index ri, slot r.doy - 1
@@ -158,7 +165,7 @@ theorem aligned_from (sy cap y0 : Nat) (rest : List (Rec π)) :
       intro s' hstep hf' hT' hyrz' hcap' hst hlt hsame
       unfold AlignedFrom
       obtain ⟨ms, hread, hA, hB, hC, hD⟩ := ih r s' hf' hT' hyrz' (by omega) hsy hcap' hr1
-        (by rw [hst]; exact jarAt_put_same ..) (by rw [hst]; exact maxAt_put_same ..) hg' hpos'
+        (by rw [hst]; exact jarAt_put_same ..) (by rw [hst]; exact maxAt_put_same ..) hg' hpos' hnb'
       refine ⟨ms, by simp [readMultiFrom, hstep, hread], ?_, ?_, ?_, ?_⟩
       · intro q hq hqc
         rcases List.mem_cons.mp hq with hqe | hq'
@@ -198,7 +205,7 @@ theorem aligned_from (sy cap y0 : Nat) (rest : List (Rec π)) :
         · exact Or.inr ⟨q', List.mem_cons_of_mem _ hq'm, hq'y, hq'i, hq'v⟩
     rcases hc with ⟨hyr, hdoy⟩ | ⟨hyr, hdoy, hlast⟩
     · -- next day of the same year
-      have hstep := multiStep_same sy cap s r hnskip hf (by omega) (by omega) hcap
+      have hstep := multiStep_same sy cap s r hrb hnskip hf (by omega) (by omega) hcap
       refine key _ hstep rfl (by show s.T + 1 = r.doy; omega) (by show s.yrz = r.year - y0 + 1; omega)
         (by show s.yrz ≤ cap; exact hcap) ?_ (by omega) (fun _ => hyr.symm)
       show s.store.put (s.yrz - 1) (s.T + 1 - 1) r.val r.year (s.T + 1) = _
@@ -213,7 +220,7 @@ theorem aligned_from (sy cap y0 : Nat) (rest : List (Rec π)) :
         simp [switchOk, e1, e2, hjar, hmax, hlast]
       by_cases hover : s.yrz + 1 > cap
       · -- more years in the file than allocated: `break`
-        obtain ⟨s', hstep, hst⟩ := multiStep_newyear_stop sy cap s r hnskip hf hdoy hsw hover
+        obtain ⟨s', hstep, hst⟩ := multiStep_newyear_stop sy cap s r hrb hnskip hf hdoy hsw hover
         refine ⟨s', by simp [readMultiFrom, hstep], ?_, fun _ _ _ => by rw [hst], fun _ _ => by rw [hst],
           fun _ => Or.inl (by rw [hst])⟩
         intro q hq hqc
@@ -223,7 +230,7 @@ theorem aligned_from (sy cap y0 : Nat) (rest : List (Rec π)) :
           · rw [hqe]; exact Nat.le_refl _
           · have := hlater' q hq'; omega
         omega
-      · have hstep := multiStep_newyear sy cap s r hnskip hf hdoy hsw hover
+      · have hstep := multiStep_newyear sy cap s r hrb hnskip hf hdoy hsw hover
         refine key _ hstep rfl (by show 1 = r.doy; omega) (by show s.yrz + 1 = r.year - y0 + 1; omega)
           (by show s.yrz + 1 ≤ cap; omega) ?_ (by omega) (fun h => by omega)
         show s.store.put (s.yrz + 1 - 1) (1 - 1) r.val r.year 1 = _
@@ -234,7 +241,7 @@ theorem aligned_from (sy cap y0 : Nat) (rest : List (Rec π)) :
 
 /-- the loop from a state that has not stored anything yet (`first`), any T -/
 theorem aligned_first (sy cap : Nat) (recs : List (Rec π)) :
-    ∀ (s : MState π), s.first = true → (∀ r ∈ recs, 1 ≤ r.doy) → gapFreeB recs = true →
+    ∀ (s : MState π), s.first = true → (∀ r ∈ recs, 1 ≤ r.doy) → (∀ r ∈ recs, r.bad = false) → gapFreeB recs = true →
       ∃ ms, readMultiFrom sy cap s recs = some ms ∧
         ∀ r ∈ recs, sy ≤ r.year → r.year < firstYear sy recs + cap →
           ms.store.get (r.year - firstYear sy recs) (r.doy - 1) = some r.val ∧
@@ -242,19 +249,21 @@ theorem aligned_first (sy cap : Nat) (recs : List (Rec π)) :
           r.doy ≤ ms.store.maxAt (r.year - firstYear sy recs) ∧
           ∃ q ∈ recs, q.year = r.year ∧ ms.store.maxAt (r.year - firstYear sy recs) = q.doy := by
   induction recs with
-  | nil => intro s _ _ _; exact ⟨s, rfl, by simp⟩
+  | nil => intro s _ _ _ _; exact ⟨s, rfl, by simp⟩
   | cons f rest ih =>
-    intro s hf hpos hgf
+    intro s hf hpos hnb hgf
     have hf1 : 1 ≤ f.doy := hpos f (List.mem_cons_self ..)
     have hpos' : ∀ q ∈ rest, 1 ≤ q.doy := fun q hq => hpos q (List.mem_cons_of_mem _ hq)
+    have hnb' : ∀ q ∈ rest, q.bad = false := fun q hq => hnb q (List.mem_cons_of_mem _ hq)
+    have hfb : f.bad = false := hnb f (List.mem_cons_self ..)
     have hgf' : gapFreeB rest = true := by
       cases rest with
       | nil => rfl
       | cons b rest' => simp only [gapFreeB, Bool.and_eq_true] at hgf; exact hgf.2
     by_cases hskip : f.year < sy
     · -- a record of a year before the start year: `continue`
-      have hstep := multiStep_skip sy cap s f hskip
-      obtain ⟨ms, hread, hA⟩ := ih { s with T := s.T + 1 } hf hpos' hgf'
+      have hstep := multiStep_skip sy cap s f hfb hskip
+      obtain ⟨ms, hread, hA⟩ := ih { s with T := s.T + 1 } hf hpos' hnb' hgf'
       refine ⟨ms, by simp [readMultiFrom, hstep, hread], ?_⟩
       intro r hr hry hrc
       simp only [firstYear, hskip, if_true] at hrc ⊢
@@ -266,7 +275,7 @@ theorem aligned_first (sy cap : Nat) (recs : List (Rec π)) :
       have hfy : firstYear sy (f :: rest) = f.year := by simp [firstYear, hskip]
       rw [hfy]
       by_cases hover : 1 > cap
-      · obtain ⟨s', hstep, _⟩ := multiStep_first_stop sy cap s f hskip hf hover
+      · obtain ⟨s', hstep, _⟩ := multiStep_first_stop sy cap s f hfb hskip hf hover
         refine ⟨s', by simp [readMultiFrom, hstep], ?_⟩
         intro r hr hry hrc
         exfalso
@@ -274,7 +283,7 @@ theorem aligned_first (sy cap : Nat) (recs : List (Rec π)) :
         · rw [hre] at hrc; omega
         · have := gapFree_later f rest hgf r hr'
           omega
-      · have hstep := multiStep_first sy cap s f hskip hf hover
+      · have hstep := multiStep_first sy cap s f hfb hskip hf hover
         obtain ⟨ms, hread, hA, hB, hC, hD⟩ := aligned_from sy cap f.year rest f
           { T := f.doy, yrz := 1, first := false, store := s.store.put (1 - 1) (f.doy - 1) f.val f.year f.doy }
           rfl rfl (by show 1 = f.year - f.year + 1; omega) (Nat.le_refl _)
@@ -282,7 +291,7 @@ theorem aligned_first (sy cap : Nat) (recs : List (Rec π)) :
           (by show (s.store.put (1 - 1) (f.doy - 1) f.val f.year f.doy).jarAt (f.year - f.year) = f.year
               simp only [Nat.sub_self]; exact jarAt_put_same ..)
           (by show (s.store.put (1 - 1) (f.doy - 1) f.val f.year f.doy).maxAt (f.year - f.year) = f.doy
-              simp only [Nat.sub_self]; exact maxAt_put_same ..) hgf hpos'
+              simp only [Nat.sub_self]; exact maxAt_put_same ..) hgf hpos' hnb'
         refine ⟨ms, by simp [readMultiFrom, hstep, hread], ?_⟩
         intro r hr hry hrc
         rcases List.mem_cons.mp hr with hre | hr'
@@ -314,7 +323,7 @@ theorem readMulti_aligned (startyear cap : Nat) (recs : List (Rec π))
         ms.store.jarAt (r.year - firstYear startyear recs) = r.year ∧
         r.doy ≤ ms.store.maxAt (r.year - firstYear startyear recs) ∧
         ∃ q ∈ recs, q.year = r.year ∧ ms.store.maxAt (r.year - firstYear startyear recs) = q.doy :=
-  aligned_first startyear cap recs {} rfl (fun r hr => (hv r hr).1) hg
+  aligned_first startyear cap recs {} rfl (fun r hr => (hv r hr).2.1) (fun r hr => (hv r hr).1) hg
 
 /-! ### the year-file reader -/
 
@@ -332,21 +341,21 @@ theorem jarAt_put0 (s : Store π) (j : Nat) (v : π) (T i : Nat) : (s.put0 j v T
 theorem maxAt_put0 (s : Store π) (j : Nat) (v : π) (T : Nat) : (s.put0 j v T).maxAt 0 = T := by
   simp [Store.put0, Store.maxAt, lookup1]
 
-theorem readYearLines_aligned (vals : List π) :
-    ∀ (st : Store π) (tlast : Nat), tlast + vals.length ≤ 366 →
-      (readYearLines st tlast (numberFrom (tlast + 1) vals)).2 = YStatus.ok ∧
-      (∀ i, (readYearLines st tlast (numberFrom (tlast + 1) vals)).1.jarAt i = st.jarAt i) ∧
-      (vals ≠ [] → (readYearLines st tlast (numberFrom (tlast + 1) vals)).1.maxAt 0 = tlast + vals.length) ∧
-      (∀ j, j < tlast → (readYearLines st tlast (numberFrom (tlast + 1) vals)).1.get 0 j = st.get 0 j) ∧
-      ∀ k (hk : k < vals.length), (readYearLines st tlast (numberFrom (tlast + 1) vals)).1.get 0 (tlast + k) = some vals[k] := by
+theorem readYearLines_aligned (year : Nat) (vals : List π) :
+    ∀ (st : Store π) (tlast : Nat), tlast + vals.length ≤ daysInYear year →
+      (readYearLines year st tlast (numberFrom (tlast + 1) vals)).2 = YStatus.ok ∧
+      (∀ i, (readYearLines year st tlast (numberFrom (tlast + 1) vals)).1.jarAt i = st.jarAt i) ∧
+      (vals ≠ [] → (readYearLines year st tlast (numberFrom (tlast + 1) vals)).1.maxAt 0 = tlast + vals.length) ∧
+      (∀ j, j < tlast → (readYearLines year st tlast (numberFrom (tlast + 1) vals)).1.get 0 j = st.get 0 j) ∧
+      ∀ k (hk : k < vals.length), (readYearLines year st tlast (numberFrom (tlast + 1) vals)).1.get 0 (tlast + k) = some vals[k] := by
   induction vals with
   | nil => intro st tlast _; simp [numberFrom, readYearLines]
   | cons v vs ih =>
     intro st tlast hlen
     simp only [List.length_cons] at hlen
-    have h2 : ¬ tlast + 1 > 366 := by omega
-    have e : readYearLines st tlast (numberFrom (tlast + 1) (v :: vs)) =
-        readYearLines (st.put0 (tlast + 1 - 1) v (tlast + 1)) (tlast + 1) (numberFrom (tlast + 1 + 1) vs) := by
+    have h2 : ¬ tlast + 1 > daysInYear year := by omega
+    have e : readYearLines year st tlast (numberFrom (tlast + 1) (v :: vs)) =
+        readYearLines year (st.put0 (tlast + 1 - 1) v (tlast + 1)) (tlast + 1) (numberFrom (tlast + 1 + 1) vs) := by
       simp [numberFrom, readYearLines, h2]
     rw [e]
     obtain ⟨a, b, c, d, f⟩ := ih (st.put0 (tlast + 1 - 1) v (tlast + 1)) (tlast + 1) (by omega)
@@ -373,14 +382,14 @@ theorem readYearLines_aligned (vals : List π) :
         have e2 : tlast + (k' + 1) = tlast + 1 + k' := by omega
         rw [e2]; exact this
 
-theorem readYearFile_aligned (year : Nat) (st : Store π) (vals : List π) (hne : vals ≠ []) (hn : vals.length ≤ 366) :
+theorem readYearFile_aligned (year : Nat) (st : Store π) (vals : List π) (hne : vals ≠ []) (hn : vals.length ≤ daysInYear year) :
     (readYearFile year st (some (numberFrom 1 vals))).2 = YStatus.ok ∧
     (readYearFile year st (some (numberFrom 1 vals))).1.jarAt 0 = year ∧
     (vals ≠ [] → (readYearFile year st (some (numberFrom 1 vals))).1.maxAt 0 = vals.length) ∧
     ∀ k (hk : k < vals.length), (readYearFile year st (some (numberFrom 1 vals))).1.get 0 k = some vals[k] := by
-  obtain ⟨a, b, c, _, f⟩ := readYearLines_aligned vals (st.setJar 0 year) 0 (by omega)
+  obtain ⟨a, b, c, _, f⟩ := readYearLines_aligned year vals (st.setJar 0 year) 0 (by omega)
   simp only [Nat.zero_add] at a b c f
-  have e : readYearFile year st (some (numberFrom 1 vals)) = readYearLines (st.setJar 0 year) 0 (numberFrom 1 vals) := by
+  have e : readYearFile year st (some (numberFrom 1 vals)) = readYearLines year (st.setJar 0 year) 0 (numberFrom 1 vals) := by
     cases vals with
     | nil => exact absurd rfl hne
     | cons v vs => simp [numberFrom, readYearFile]
